@@ -1,11 +1,21 @@
 (* C14 - values prepared for writing respect format, range and step.
    Statements only; every proof is [exact <lemma>] from Proofs/Convert*.v.
-   The model (Model/Convert.v: Python's decimal arithmetic + strtobool +
-   check_convert_value as repaired by fixes/C14-*.patch) is tied to
-   aiohomekit/model/characteristics/characteristic.py and Service.build_update
-   by the correspondence check harness/c14.py. *)
+
+   Model/Convert.v has two layers.  [check_convert] is the model of
+   check_convert_value as repaired by fixes/C14-*.patch - with decimal's exponent
+   range (Emax = 999999, Etiny = -1000004: Overflow, subnormal rounding, clamped
+   zeros), the magnitude guard (clamped value >= 1e309 -> FormatError) and the
+   float guard (result not a finite double -> FormatError); it is what the
+   correspondence check harness/c14.py runs against the code, on exponents of
+   any size.  [ideal_convert] is the same computation in ideal decimal
+   arithmetic (no exponent range, no guards).
+   Part 1 states accuracy in the ideal layer, Part 2 ties [check_convert] to it:
+   [model_refines_ideal] (equal up to the two guards whenever no intermediate
+   result leaves decimal's normal range), exact meanings of the guards and of
+   Overflow, exactness for integers, totality.  Part 3: histories. *)
 From Coq Require Import List NArith ZArith Bool QArith Qabs.
-From AHK Require Import Lib.Res Model.Convert Model.ConvertHist Proofs.ConvertInt Proofs.ConvertQ Proofs.ConvertFrac Proofs.ConvertRange Proofs.ConvertHist.
+From AHK Require Import Lib.Res Model.Convert Model.ConvertHist Proofs.ConvertInt Proofs.ConvertQ Proofs.ConvertFrac Proofs.ConvertRange
+  Proofs.ConvertBound Proofs.ConvertGuard Proofs.ConvertHist.
 Import ListNotations.
 Local Open Scope Z_scope.
 
@@ -14,10 +24,10 @@ Local Open Scope Z_scope.
    (3, 3.0, 3E+0, 30E-1 ...): the result is exactly
        min + r * step,  r = (clamp(v) - min) / step rounded half away from zero
    computed in Z ([spec_int], [rhaz], [clampZ] are plain integer functions). *)
-Theorem int_exact : forall f omin omax ostep ozmin ozmax ozstep s v zv,
+Theorem int_exact_ideal : forall f omin omax ostep ozmin ozmax ozstep s v zv,
   is_integer_fmt f = true ->
   orel omin ozmin -> orel omax ozmax -> orel ostep ozstep -> dec_is_Z v zv ->
-  check_convert f omin omax ostep s (RFin v) = Ok (VInt (spec_int ozmin ozmax ozstep zv)).
+  ideal_convert f omin omax ostep s (RFin v) = Ok (VInt (spec_int ozmin ozmax ozstep zv)).
 Proof. exact int_exact_lemma. Qed.
 
 (* ... and that integer is a grid point nearest to the clamped input: no
@@ -44,30 +54,30 @@ Theorem in_range_when_bounds_on_grid : forall zmin zmax ostep v,
 Proof. exact spec_int_in_range. Qed.
 
 (* integer formats yield Python ints, float yields the decimal handed to float() *)
-Theorem int_is_int : forall f omin omax ostep s r v,
-  is_integer_fmt f = true -> check_convert f omin omax ostep s r = Ok v -> exists z, v = VInt z.
+Theorem int_is_int_ideal : forall f omin omax ostep s r v,
+  is_integer_fmt f = true -> ideal_convert f omin omax ostep s r = Ok v -> exists z, v = VInt z.
 Proof. exact int_is_int_lemma. Qed.
 
-Theorem float_is_dec : forall omin omax ostep s r v,
-  check_convert FFloat omin omax ostep s r = Ok v -> exists d, v = VDec d.
+Theorem float_is_dec_ideal : forall omin omax ostep s r v,
+  ideal_convert FFloat omin omax ostep s r = Ok v -> exists d, v = VDec d.
 Proof. exact float_is_dec_lemma. Qed.
 
 (* booleans yield 0 or 1, or the format error *)
-Theorem bool_is_01 : forall omin omax ostep s r,
-  check_convert FBool omin omax ostep s r =
+Theorem bool_is_01_ideal : forall omin omax ostep s r,
+  ideal_convert FBool omin omax ostep s r =
   match strtobool s with Some true => Ok (VInt 1) | Some false => Ok (VInt 0) | None => Err FormatError end.
 Proof. exact bool_lemma. Qed.
 
 (* an input the decimal reading rejects (or reads as NaN / Infinity) fails with
    FormatError; and no input whatsoever makes the conversion crash *)
-Theorem convert_error_class : forall f omin omax ostep s r,
+Theorem convert_error_class_ideal : forall f omin omax ostep s r,
   f <> FBool -> (r = RReject \/ r = RNonFinite) ->
-  check_convert f omin omax ostep s r = Err FormatError.
+  ideal_convert f omin omax ostep s r = Err FormatError.
 Proof. exact reject_lemma. Qed.
 
-Theorem convert_total : forall f omin omax ostep s r,
-  (exists v, check_convert f omin omax ostep s r = Ok v) \/
-  check_convert f omin omax ostep s r = Err FormatError.
+Theorem convert_total_ideal : forall f omin omax ostep s r,
+  (exists v, ideal_convert f omin omax ostep s r = Ok v) \/
+  ideal_convert f omin omax ostep s r = Err FormatError.
 Proof. exact convert_total_lemma. Qed.
 
 (* non-vacuity: a uint32 at the top of its range (the value the six-digit
@@ -76,14 +86,14 @@ Proof. exact convert_total_lemma. Qed.
 Example c14_nonvacuous :
   let d := fun z => mkDec (z <? 0) (Z.abs_N z) 0 in
   dec_is_Z (mkDec false 10 (-1)) 1 /\ dec_is_Z (d 4294967295) 4294967295 /\
-  check_convert FUint32 (Some (d 0)) (Some (d 4294967295)) (Some (mkDec false 10 (-1))) [] (RFin (d 4294967295))
+  ideal_convert FUint32 (Some (d 0)) (Some (d 4294967295)) (Some (mkDec false 10 (-1))) [] (RFin (d 4294967295))
     = Ok (VInt 4294967295) /\
-  check_convert FInt (Some (d (-2147483648))) (Some (d 2147483647)) (Some (d 3)) [] (RFin (d 123456))
+  ideal_convert FInt (Some (d (-2147483648))) (Some (d 2147483647)) (Some (d 3)) [] (RFin (d 123456))
     = Ok (VInt 123457) /\
   spec_int (Some (-2147483648)) (Some 2147483647) (Some 3) 123456 = 123457 /\
-  check_convert FUint8 (Some (d 0)) (Some (d 100)) (Some (d 2)) [] (RFin (d 5)) = Ok (VInt 6) /\
-  check_convert FUint8 None None None [97; 98; 99]%N RReject = Err FormatError /\
-  check_convert FBool None None None [84; 114; 117; 101]%N RReject = Ok (VInt 1).
+  ideal_convert FUint8 (Some (d 0)) (Some (d 100)) (Some (d 2)) [] (RFin (d 5)) = Ok (VInt 6) /\
+  ideal_convert FUint8 None None None [97; 98; 99]%N RReject = Err FormatError /\
+  ideal_convert FBool None None None [84; 114; 117; 101]%N RReject = Ok (VInt 1).
 Proof. cbv zeta. repeat split; vm_compute; reflexivity. Qed.
 
 
@@ -108,7 +118,7 @@ Theorem frac_six_digits : forall omin omax s str v, dcoef s <> 0%N ->
   let C := clampQ (option_map dval omin) (option_map dval omax) (dval v) in
   let O := offQ omin in
   exists res d q m,
-    check_convert FFloat omin omax (Some s) str (RFin v) = Ok (VDec res) /\
+    ideal_convert FFloat omin omax (Some s) str (RFin v) = Ok (VDec res) /\
     rnd6 (C - O) d /\ rnd6 (d / dval s) q /\
     rnd6 (inject_Z (rhaQ q) * dval s) m /\ rnd6 (O + m) (dval res).
 Proof. exact float_six_digits_lemma. Qed.
@@ -120,13 +130,13 @@ Theorem frac_exact_small : forall omin omax s str v, dcoef s <> 0%N ->
   let O := offQ omin in
   let r := rhaQ ((C - O) / dval s) in
   rep6 (C - O) -> rep6 ((C - O) / dval s) -> rep6 (inject_Z r * dval s) -> rep6 (O + inject_Z r * dval s) ->
-  exists res, check_convert FFloat omin omax (Some s) str (RFin v) = Ok (VDec res) /\
+  exists res, ideal_convert FFloat omin omax (Some s) str (RFin v) = Ok (VDec res) /\
               dval res == O + inject_Z r * dval s.
 Proof. exact float_exact_small_lemma. Qed.
 
 (* without a step the clamped value is handed over unchanged *)
 Theorem float_nostep_exact : forall omin omax str v,
-  exists res, check_convert FFloat omin omax None str (RFin v) = Ok (VDec res) /\
+  exists res, ideal_convert FFloat omin omax None str (RFin v) = Ok (VDec res) /\
               dval res == clampQ (option_map dval omin) (option_map dval omax) (dval v).
 Proof. exact float_nostep_lemma. Qed.
 
@@ -156,7 +166,7 @@ Theorem int_fractional_six_digits : forall f omin omax s str v,
   let C := clampQ (option_map dval omin) (option_map dval omax) (dval v) in
   let O := offQ omin in
   exists z res d q m,
-    check_convert f omin omax (Some s) str (RFin v) = Ok (VInt z) /\
+    ideal_convert f omin omax (Some s) str (RFin v) = Ok (VInt z) /\
     Qabs (inject_Z z - dval res) <= 1 # 2 /\
     rnd6 (C - O) d /\ rnd6 (d / dval s) q /\ rnd6 (inject_Z (rhaQ q) * dval s) m /\ rnd6 (O + m) (dval res).
 Proof. exact int_dec_path_lemma. Qed.
@@ -173,8 +183,8 @@ Example c14_frac_nonvacuous :
   let r := rhaQ ((C - O) / dval s) in
   (rep6 (C - O) /\ rep6 ((C - O) / dval s) /\ rep6 (inject_Z r * dval s) /\ rep6 (O + inject_Z r * dval s)) /\
   r = 35%Z /\ O + inject_Z r * dval s == 275 # 10 /\
-  check_convert FFloat omin omax (Some s) [] (RFin (mk 2726%N (-2)%Z)) = Ok (VDec (mk 275%N (-1)%Z)) /\
-  check_convert FFloat (Some (mk 72%N (-1)%Z)) None
+  ideal_convert FFloat omin omax (Some s) [] (RFin (mk 2726%N (-2)%Z)) = Ok (VDec (mk 275%N (-1)%Z)) /\
+  ideal_convert FFloat (Some (mk 72%N (-1)%Z)) None
      (Some (mk 1000000000000000055511151231257827021181583404541015625%N (-55)%Z)) []
      (RFin (mk 27260000000000001563194018672220408916473388671875%N (-48)%Z))
     = Ok (VDec (mk 273000%N (-4)%Z)).
@@ -208,7 +218,7 @@ Theorem frac_in_range_when_bounds_on_grid : forall m M s str v K,
   dcoef s <> 0%N -> dneg s = false -> dval m <= dval M ->
   rep6 (dval m) -> rep6 (dval M) -> rep6 (dval M - dval m) ->
   (0 <= K < 10 ^ 6)%Z -> dval M - dval m == inject_Z K * dval s ->
-  exists res, check_convert FFloat (Some m) (Some M) (Some s) str (RFin v) = Ok (VDec res) /\
+  exists res, ideal_convert FFloat (Some m) (Some M) (Some s) str (RFin v) = Ok (VDec res) /\
               dval m <= dval res <= dval M.
 Proof. exact float_in_range_lemma. Qed.
 
@@ -219,7 +229,7 @@ Theorem int_fractional_in_range : forall f m M s str v K zm zM,
   dval m == inject_Z zm -> dval M == inject_Z zM ->
   rep6 (dval m) -> rep6 (dval M) -> rep6 (dval M - dval m) ->
   (0 <= K < 10 ^ 6)%Z -> dval M - dval m == inject_Z K * dval s ->
-  exists z, check_convert f (Some m) (Some M) (Some s) str (RFin v) = Ok (VInt z) /\ (zm <= z <= zM)%Z.
+  exists z, ideal_convert f (Some m) (Some M) (Some s) str (RFin v) = Ok (VInt z) /\ (zm <= z <= zM)%Z.
 Proof. exact int_dec_path_in_range_lemma. Qed.
 
 (* non-vacuity (thermostat 10..38 step 0.5, K = 56, a 50-digit float input above
@@ -231,9 +241,9 @@ Example c14_range_nonvacuous :
   let m := mk 10%N 0%Z in let M := mk 38%N 0%Z in let s := mk 5%N (-1)%Z in
   (dval m <= dval M /\ rep6 (dval m) /\ rep6 (dval M) /\ rep6 (dval M - dval m) /\
    dval M - dval m == inject_Z 56 * dval s) /\
-  check_convert FFloat (Some m) (Some M) (Some s) []
+  ideal_convert FFloat (Some m) (Some M) (Some s) []
     (RFin (mk 3799999999999999715782905696310102939605712890625%N (-47)%Z)) = Ok (VDec (mk 380%N (-1)%Z)) /\
-  check_convert FFloat (Some (mk 0%N 0%Z)) (Some (mk 9999995%N (-1)%Z)) (Some s) [] (RFin (mk 9999995%N (-1)%Z))
+  ideal_convert FFloat (Some (mk 0%N 0%Z)) (Some (mk 9999995%N (-1)%Z)) (Some s) [] (RFin (mk 9999995%N (-1)%Z))
     = Ok (VDec (mk 100000%N 1%Z)) /\
   ~ dval (mk 100000%N 1%Z) <= dval (mk 9999995%N (-1)%Z).
 Proof.
@@ -248,6 +258,131 @@ Proof.
   - vm_compute. intro H. apply H. reflexivity.
 Qed.
 
+
+(* ====================================================================== *)
+(* Part 2 - the model of the code: exponent range, guards, totality        *)
+(* ====================================================================== *)
+Local Open Scope Z_scope.
+
+(* Numeric formats: whenever every exact intermediate result of the six-digit
+   path is in decimal's normal range ([normal_run]: exponent >= Etiny, adjusted
+   exponent < Emax - vacuous without a step and on the exact integer branch),
+   the code's result is the ideal result behind the two guards:
+     guards c r = if too_big c then Err FormatError
+                  else (r, but Err FormatError if r is a decimal that is no finite double) *)
+Theorem model_refines_ideal : forall f omin omax ostep str v,
+  f <> FBool -> normal_run f omin omax ostep v ->
+  check_convert f omin omax ostep str (RFin v) =
+  guards (clamp omin omax v) (ideal_convert f omin omax ostep str (RFin v)).
+Proof. exact refine_lemma. Qed.
+
+(* what the guards mean, exactly *)
+Theorem guard_too_big_meaning : forall d,
+  too_big d = true <-> (inject_Z (10 ^ 309) <= Qabs (dval d))%Q.
+Proof. exact too_big_Q. Qed.
+
+Theorem guard_float_finite_meaning : forall d,
+  float_finite d = true <-> (Qabs (dval d) < inject_Z (2 ^ 1024 - 2 ^ 970))%Q.
+Proof. exact float_finite_Q. Qed.
+
+(* decimal's _fix with Emax / Etiny: identical to the ideal _fix on the normal range,
+   and decimal.Overflow exactly when the ideally rounded result exceeds Emax = 999999 *)
+Theorem bounded_fix_refines : forall cx d, (1 <= cprec cx)%N -> normal cx d -> dfixb cx d = Some (dfix cx d).
+Proof. exact dfixb_normal. Qed.
+
+Theorem overflow_meaning : forall cx d, (1 <= cprec cx)%N ->
+  (dfixb cx d = None <-> dcoef d <> 0%N /\ emax < adjusted (dfix cx d)).
+Proof. exact dfixb_overflow. Qed.
+
+(* the shortcuts that keep the model executable on huge exponents compute the same *)
+Theorem shortcuts_are_exact : forall m a b c k omin omax,
+  dcmp a b = dcompare a b /\ to_integral_f m a = to_integral m a /\ dec_to_Z_f a = dec_to_Z a /\
+  round_drop_f m c k = round_drop m c k /\ clamp_f omin omax a = clamp omin omax a /\
+  is_integral_f m a = is_integral m a.
+Proof. exact shortcuts_lemma. Qed.
+
+(* Integer formats, integer-valued input of ANY magnitude, integer-valued metadata:
+   FormatError iff the clamped value is >= 10^309, else exactly
+   min + round-half-up((clamp(v) - min) / step) * step *)
+Theorem int_exact : forall f omin omax ostep ozmin ozmax ozstep s v zv,
+  is_integer_fmt f = true ->
+  orel omin ozmin -> orel omax ozmax -> orel ostep ozstep -> dec_is_Z v zv ->
+  check_convert f omin omax ostep s (RFin v) =
+  if 10 ^ 309 <=? Z.abs (clampZ ozmin ozmax zv) then Err FormatError
+  else Ok (VInt (spec_int ozmin ozmax ozstep zv)).
+Proof. exact int_exactb_lemma. Qed.
+
+(* the six-digit theorem for the model of the code (float format) *)
+Theorem frac_six_digits_model : forall omin omax s str v, dcoef s <> 0%N ->
+  normal_run FFloat omin omax (Some s) v ->
+  let C := clampQ (option_map dval omin) (option_map dval omax) (dval v) in
+  let O := offQ omin in
+  exists res d q m,
+    check_convert FFloat omin omax (Some s) str (RFin v) =
+      (if too_big (clamp omin omax v) then Err FormatError
+       else if float_finite res then Ok (VDec res) else Err FormatError) /\
+    (rnd6 (C - O) d /\ rnd6 (d / dval s) q /\ rnd6 (inject_Z (rhaQ q) * dval s) m /\ rnd6 (O + m) (dval res))%Q.
+Proof. exact float_six_digits_model. Qed.
+
+(* integer formats yield Python ints, float yields a decimal that IS a finite double *)
+Theorem int_is_int : forall f omin omax ostep s r v,
+  is_integer_fmt f = true -> check_convert f omin omax ostep s r = Ok v -> exists z, v = VInt z.
+Proof. exact int_is_intb_lemma. Qed.
+
+Theorem float_is_dec : forall omin omax ostep s r v,
+  check_convert FFloat omin omax ostep s r = Ok v -> exists d, v = VDec d /\ float_finite d = true.
+Proof. exact float_is_decb_lemma. Qed.
+
+Theorem bool_is_01 : forall omin omax ostep s r,
+  check_convert FBool omin omax ostep s r =
+  match strtobool s with Some true => Ok (VInt 1) | Some false => Ok (VInt 0) | None => Err FormatError end.
+Proof. exact boolb_lemma. Qed.
+
+(* a rejected or non-finite reading fails with FormatError; and for EVERY input -
+   any exponent, overflow, subnormal, anything - the result is a value or FormatError *)
+Theorem convert_error_class : forall f omin omax ostep s r,
+  f <> FBool -> (r = RReject \/ r = RNonFinite) ->
+  check_convert f omin omax ostep s r = Err FormatError.
+Proof. exact rejectb_lemma. Qed.
+
+Theorem convert_total : forall f omin omax ostep s r,
+  (exists v, check_convert f omin omax ostep s r = Ok v) \/
+  check_convert f omin omax ostep s r = Err FormatError.
+Proof. exact convertb_total_lemma. Qed.
+
+(* non-vacuity and the findings of this round as computations of the model:
+   "1e1000000" with a step (was decimal.Overflow), "1e400" for a float (was inf),
+   "1e1000000" for uint64 (was a 3.3-million-bit int after 25 s), the two decimals
+   around the largest double, 1e-1000000 (a subnormal: 0.0), a clamped huge value,
+   0E+1000000, and Overflow proper (step 1e-999999, value 1e10: quotient 1e1000009) *)
+Example c14_model_nonvacuous :
+  let mk := fun c e => mkDec false c e in
+  let half := Some (mk 5%N (-1)) in
+  normal_run FFloat (Some (mk 10%N 0)) (Some (mk 38%N 0)) half (mk 2726%N (-2)) /\
+  normal_run FFloat None None half (mk 1%N (-1000000)) /\
+  check_convert FFloat None None half [] (RFin (mk 1%N 1000000)) = Err FormatError /\
+  check_convert FFloat None None None [] (RFin (mk 1%N 400)) = Err FormatError /\
+  check_convert FUint64 None None None [] (RFin (mk 1%N 1000000)) = Err FormatError /\
+  check_convert FFloat None None None [] (RFin (mk 1797693134862315807%N 290)) = Ok (VDec (mk 1797693134862315807%N 290)) /\
+  check_convert FFloat None None None [] (RFin (mk 1797693134862315808%N 290)) = Err FormatError /\
+  check_convert FFloat None None half [] (RFin (mk 1%N (-1000000))) = Ok (VDec (mk 0%N (-1))) /\
+  check_convert FUint8 (Some (mk 0%N 0)) (Some (mk 100%N 0)) (Some (mk 1%N 0)) [] (RFin (mk 1%N 1000000)) = Ok (VInt 100) /\
+  check_convert FUint8 None None (Some (mk 1%N 0)) [] (RFin (mk 0%N 1000000)) = Ok (VInt 0) /\
+  check_convert FFloat None None (Some (mk 1%N (-999999))) [] (RFin (mk 1%N 10)) = Err FormatError /\
+  ddivb ctx6 (mk 1%N 10) (mk 1%N (-999999)) = None /\
+  dsubb ctx6 (mk 349996%N (-1000005)) (mk 0%N 0) = Some (mk 35000%N (-1000004)).
+Proof.
+  cbv zeta. split; [|split].
+  - intros _. cbv zeta. intros _. exact (proj1 chain_normal_example).
+  - intros _. cbv zeta. intros _. exact (proj2 chain_normal_example).
+  - repeat split; vm_compute; reflexivity.
+Qed.
+
+Local Open Scope Q_scope.
+
+(* ====================================================================== *)
+(* Part 3                                                                  *)
+(* ====================================================================== *)
 (* ---------------------------------------------------------------------- *)
 (* Histories (Model/ConvertHist.v): one Service with long-lived             *)
 (* Characteristic objects; Declare = metadata re-assigned, Report = the     *)
@@ -311,15 +446,21 @@ Example c14_history_nonvacuous :
      Ok [(1%N, 3%N, VInt 3%Z); (1%N, 2%N, VDec (mk 223%N (-1)%Z))]].
 Proof. vm_compute. reflexivity. Qed.
 
+Print Assumptions int_exact_ideal.
 Print Assumptions int_exact.
 Print Assumptions int_nearest_grid_point.
 Print Assumptions rhaz_is_nearest.
 Print Assumptions rhaz_ties_away.
 Print Assumptions in_range_when_bounds_on_grid.
+Print Assumptions int_is_int_ideal.
 Print Assumptions int_is_int.
+Print Assumptions float_is_dec_ideal.
 Print Assumptions float_is_dec.
+Print Assumptions bool_is_01_ideal.
 Print Assumptions bool_is_01.
+Print Assumptions convert_error_class_ideal.
 Print Assumptions convert_error_class.
+Print Assumptions convert_total_ideal.
 Print Assumptions convert_total.
 Print Assumptions frac_six_digits.
 Print Assumptions frac_exact_small.
@@ -337,3 +478,10 @@ Print Assumptions payload_one_bad_entry_rejects.
 Print Assumptions six_digit_numbers_are_barriers.
 Print Assumptions frac_in_range_when_bounds_on_grid.
 Print Assumptions int_fractional_in_range.
+Print Assumptions model_refines_ideal.
+Print Assumptions guard_too_big_meaning.
+Print Assumptions guard_float_finite_meaning.
+Print Assumptions bounded_fix_refines.
+Print Assumptions overflow_meaning.
+Print Assumptions shortcuts_are_exact.
+Print Assumptions frac_six_digits_model.
